@@ -650,11 +650,46 @@ def dictionary_facts(ctx, dicts):
                          "enumeration, as the property asks): " + "; ".join(odd))
 
 
+def xml_enum_oracle(ctx, dicts):
+    """'fields with enumerated values accept exactly the enumerated values': the enumerations are read from the
+    XML text itself (not through the library's parser) and checked on the library's real field objects."""
+    import warnings
+    import xml.etree.ElementTree as ET
+
+    def accepts(f, v):
+        try:
+            with warnings.catch_warnings():
+                warnings.simplefilter("ignore")
+                f.validate_value(v)
+            return True
+        except Exception:
+            return False
+
+    for stem, rel in (("fix44", "tests/FIX44.xml"), ("tt", "tests/TT-FIX44.xml")):
+        root = ET.parse(os.path.join(core.REPO, rel)).getroot()
+        for el in root.find("fields"):
+            enum = [v.attrib["enum"] for v in el if v.tag == "value"]
+            f = dicts[stem]._tag2field.get(el.attrib["number"])
+            if f is None or f.ftype != el.attrib["type"]:
+                ctx.fail({"dictionary": rel, "tag": el.attrib["number"]}, "field of the XML dictionary missing or retyped in the parsed schema")
+                continue
+            if not enum:
+                continue
+            ctx.count("xml-enumerated-fields")
+            for e in enum:
+                if e and not accepts(f, e):
+                    ctx.fail({"dictionary": rel, "tag": f.tag, "s": e}, "enumerator of the XML dictionary refused")
+            for bad in ("~~", enum[0] + "~", "5", "9", "0", "Z"):
+                if bad not in enum and accepts(f, bad):
+                    ctx.fail({"dictionary": rel, "tag": f.tag, "s": bad, "enumeration": enum[:12]}, "value outside the XML enumeration accepted")
+
+
 def run(ctx):
     import time
     t_start = time.time()
     dicts = load_dictionaries()
     dictionary_facts(ctx, dicts)
+    xml_enum_oracle(ctx, dicts)
     groups = corpus() + type_groups(ctx, ctx.scale(4, 4)) + dictionary_groups(ctx, dicts)
     if ctx.tier == "thorough":
         for name in ("INT", "FLOAT", "SEQNUM", "DAYOFMONTH"):
